@@ -50,6 +50,7 @@ fn main() {
     }
     match args[1].as_str() {
         "worker" => pool::worker_main(),
+        "oneshot" => checks::oneshot_main(),
         "litmus" => {
             let (n, fails) = litmus::self_check();
             println!("litmus: {} tests, {} failures", n, fails.len());
